@@ -91,6 +91,7 @@ func c09Register() {
 	c09RegisterOnce.Do(func() {
 		c09MsgType = network.RegisterMessage(&C09Msg{})
 		_, err := onet.RegisterNewService("VerifC09", func(c *onet.Context) (onet.Service, error) {
+			c09svcHandlers(c.RegisterProcessorFunc)
 			return &c09Service{ServiceProcessor: onet.NewServiceProcessor(c), ctx: c}, nil
 		})
 		if err != nil {
@@ -435,6 +436,9 @@ func (w *c09world) close() {
 			}
 		}
 		w.closeRaws()
+		if atomic.LoadInt64(&c09blockedIn) > 0 {
+			w.svcRelease()
+		}
 		for _, cn := range w.stalled {
 			cn.Close()
 		}
@@ -1268,6 +1272,12 @@ func c09exec(c *h.Ctx, cs *h.Case) {
 			if ok && err == nil {
 				obs = w.send(tk[2], dests, n)
 			}
+		case len(tk) == 4 && tk[1] == "svcblock":
+			obs = w.svcSend(tk[2], tk[3], true)
+		case len(tk) == 4 && tk[1] == "svcping":
+			obs = w.svcSend(tk[2], tk[3], false)
+		case len(tk) == 2 && tk[1] == "svcrelease":
+			obs = w.svcRelease()
 		case len(tk) == 3 && tk[1] == "stall":
 			obs = w.stall(tk[2])
 		case len(tk) == 4 && tk[1] == "inbound":
